@@ -52,6 +52,7 @@ func (req *SrvReq) packRerror(ename string, ecode uint32) {
 // Respond to the request with Rerror message
 func (req *SrvReq) RespondError(err interface{}) {
 	if req.responded() {
+		verifPoint("respond.late", req, 0, 0)
 		return
 	}
 
@@ -70,6 +71,7 @@ func (req *SrvReq) RespondError(err interface{}) {
 // Respond to the request with Rversion message
 func (req *SrvReq) RespondRversion(msize uint32, version string) {
 	if req.responded() {
+		verifPoint("respond.late", req, 0, 0)
 		return
 	}
 
@@ -84,6 +86,7 @@ func (req *SrvReq) RespondRversion(msize uint32, version string) {
 // Respond to the request with Rauth message
 func (req *SrvReq) RespondRauth(aqid *Qid) {
 	if req.responded() {
+		verifPoint("respond.late", req, 0, 0)
 		return
 	}
 
@@ -98,6 +101,7 @@ func (req *SrvReq) RespondRauth(aqid *Qid) {
 // Respond to the request with Rflush message
 func (req *SrvReq) RespondRflush() {
 	if req.responded() {
+		verifPoint("respond.late", req, 0, 0)
 		return
 	}
 
@@ -112,6 +116,7 @@ func (req *SrvReq) RespondRflush() {
 // Respond to the request with Rattach message
 func (req *SrvReq) RespondRattach(aqid *Qid) {
 	if req.responded() {
+		verifPoint("respond.late", req, 0, 0)
 		return
 	}
 
@@ -126,6 +131,7 @@ func (req *SrvReq) RespondRattach(aqid *Qid) {
 // Respond to the request with Rwalk message
 func (req *SrvReq) RespondRwalk(wqids []Qid) {
 	if req.responded() {
+		verifPoint("respond.late", req, 0, 0)
 		return
 	}
 
@@ -140,6 +146,7 @@ func (req *SrvReq) RespondRwalk(wqids []Qid) {
 // Respond to the request with Ropen message
 func (req *SrvReq) RespondRopen(qid *Qid, iounit uint32) {
 	if req.responded() {
+		verifPoint("respond.late", req, 0, 0)
 		return
 	}
 
@@ -154,6 +161,7 @@ func (req *SrvReq) RespondRopen(qid *Qid, iounit uint32) {
 // Respond to the request with Rcreate message
 func (req *SrvReq) RespondRcreate(qid *Qid, iounit uint32) {
 	if req.responded() {
+		verifPoint("respond.late", req, 0, 0)
 		return
 	}
 
@@ -168,6 +176,7 @@ func (req *SrvReq) RespondRcreate(qid *Qid, iounit uint32) {
 // Respond to the request with Rread message
 func (req *SrvReq) RespondRread(data []byte) {
 	if req.responded() {
+		verifPoint("respond.late", req, 0, 0)
 		return
 	}
 
@@ -182,6 +191,7 @@ func (req *SrvReq) RespondRread(data []byte) {
 // Respond to the request with Rwrite message
 func (req *SrvReq) RespondRwrite(count uint32) {
 	if req.responded() {
+		verifPoint("respond.late", req, 0, 0)
 		return
 	}
 
@@ -196,6 +206,7 @@ func (req *SrvReq) RespondRwrite(count uint32) {
 // Respond to the request with Rclunk message
 func (req *SrvReq) RespondRclunk() {
 	if req.responded() {
+		verifPoint("respond.late", req, 0, 0)
 		return
 	}
 
@@ -210,6 +221,7 @@ func (req *SrvReq) RespondRclunk() {
 // Respond to the request with Rremove message
 func (req *SrvReq) RespondRremove() {
 	if req.responded() {
+		verifPoint("respond.late", req, 0, 0)
 		return
 	}
 
@@ -224,6 +236,7 @@ func (req *SrvReq) RespondRremove() {
 // Respond to the request with Rstat message
 func (req *SrvReq) RespondRstat(st *Dir) {
 	if req.responded() {
+		verifPoint("respond.late", req, 0, 0)
 		return
 	}
 
@@ -238,6 +251,7 @@ func (req *SrvReq) RespondRstat(st *Dir) {
 // Respond to the request with Rwstat message
 func (req *SrvReq) RespondRwstat() {
 	if req.responded() {
+		verifPoint("respond.late", req, 0, 0)
 		return
 	}
 
